@@ -23,7 +23,7 @@ import vlib
 sys.path.insert(0, os.path.dirname(os.path.dirname(os.path.abspath(__file__))))
 import c12_gen as G
 
-SHARDS_OK = 6
+SHARDS_OK = 8
 RT_POOL = [2, 3, 4, 5, 6, 11, 12, 13, 16, 17, 25, 26, 27, 28, 29, 30]
 MEM_SIZES = [0, 1, 2, 4, 6, 8, 10, 16, 32, 48, 64]
 
@@ -76,6 +76,32 @@ def random_cmds(rng, T, n):
     return cmds
 
 
+def random_feature_cmds(rng, T, n):
+    """random query_features tuples, biased to the instructions with operand-dependent refinement and to register ids around 16 and 32"""
+    K = T["K"]
+    special = [v for k, v in K.items() if k.startswith("i_")]
+    multi = [i["id"] for i in T["I"] if len([x for x in T["A"][i["addl"]]["feat"] if x]) > 1]
+    cmds = []
+    idpool = [0, 1, 7, 8, 14, 15, 16, 17, 30, 31, 32, 33]
+    for _ in range(n):
+        r = rng.random()
+        iid = rng.choice(special) if r < 0.3 else (rng.choice(multi) if r < 0.85 and multi else rng.randrange(len(T["I"]) + 2))
+        nops = rng.choice([0, 1, 2, 2, 3, 3, 3, 4, 4, 5])
+        ops = []
+        for _j in range(nops):
+            r = rng.random()
+            if r < 0.6:
+                ops.append("r%d:%d" % (rng.choice([5, 6, 11, 11, 12, 12, 13, 16, 28, 2]), rng.choice(idpool)))
+            elif r < 0.85:
+                x = rng.choice([0, 0, 1, 11, 12, 13])
+                ops.append("m%d:%d:%d" % (rng.choice(MEM_SIZES), rng.choice([0, 1, 2, 2, 2]), x + (100 * rng.choice(idpool) if x and rng.random() < 0.6 else 0)))
+            else:
+                ops.append("i%d" % rng.randrange(256))
+        opt = rng.choice([0, 0, 0, K["o_Evex"], K["o_Vex"], K["o_Vex3"], G.OPT_ZMASK, G.OPT_ER, K["o_Evex"] | K["o_Vex"]])
+        cmds.append("F %d %d %d %d %d %s" % (rng.randrange(2), iid, opt, rng.choice([0, 0, 1]), nops, " ".join(ops)))
+    return cmds
+
+
 def tablegen_regen(ck):
     """tables = tablegen(db): run the repository's generator on a scratch copy and compare the generated files"""
     repo = vlib.REPO
@@ -112,7 +138,10 @@ def build_cases(forms, T, impl, ck):
         by_name[f["name"]].append(f)
     cands = []
     unsupported = collections.Counter()
-    for f in forms:
+    derived = [g for g in (G.implicit_omitted_form(f) for f in forms) if g is not None]
+    for g in derived:
+        by_name[g["name"]].append(g)
+    for f in forms + derived:
         c = G.candidates(f, name2id)
         if c is None:
             unsupported["not in AsmJit's tables (APX/AVX10 extension or unknown mnemonic)"] += 1
@@ -123,26 +152,35 @@ def build_cases(forms, T, impl, ck):
         for x in c:
             cands.append((f, x))
     answers = run_stream(impl, [G.cmd_of(x) for _f, x in cands])
+    fanswers = run_stream(impl, [G.cmd_of(x, "F") for _f, x in cands])
+    id_name = feature_names(vlib.REPO)
+    feat_id = {n: i for i, n in id_name.items()}
     cases = []
     seen = set()
     accepted_forms = set()
     tried_forms = set()
-    for (f, x), a in zip(cands, answers):
-        tried_forms.add(f["idx"])
+    for (f, x), a, fa in zip(cands, answers, fanswers):
+        if not f.get("implicit_omitted"):
+            tried_forms.add(f["idx"])
         r = G.parse_answer(a)
         if r["impl"].get("v") != 1:
             continue
-        accepted_forms.add(f["idx"])
+        if not f.get("implicit_omitted"):
+            accepted_forms.add(f["idx"])
         exps, rf, wf, er, mg, rmc = G.expectations(f, x)
         ms = G.mem_sizes_allowed(by_name, f, x)
-        line = G.case_v(f, x, exps, rf, wf, er, mg, rmc, ms)
+        alts = G.feature_alternatives(by_name, f, x, feat_id)
+        feat_bad = G.judge_features(alts, fa, id_name)
+        line = G.case_v(f, x, exps, rf, wf, er, mg, rmc, ms, alts, feat_bad is None)
         dkey = line.split(" ", 2)[2]      # without the form index: identical tuple + identical expectations only once
         if dkey in seen:
             continue
         seen.add(dkey)
         cover_bad = G.judge(exps, rf, wf, er, mg, r)
         rm_bad = G.judge_rm(exps, ms, x[5], r) if rmc else []
-        cases.append({"form": f, "cand": x, "line": line, "ans": r, "raw": a, "cover_bad": cover_bad, "rm_bad": rm_bad})
+        cases.append({"form": f, "cand": x, "line": line, "ans": r, "raw": a, "cover_bad": cover_bad, "rm_bad": rm_bad, "feat_bad": feat_bad,
+                      "fraw": fa})
+    tried_forms = set(k for k in tried_forms if isinstance(k, int))
     for f in forms:
         if f["idx"] in tried_forms and f["idx"] not in accepted_forms:
             unsupported["validator accepts no tuple built for: " + f["name"]] += 1
@@ -161,11 +199,13 @@ def gen_files(T, cases):
         part = ok[k * per:(k + 1) * per]
         names.append(str(k))
         files["C12_X86Cases_%d.v" % k] = G.cases_file("x86_cases_%d" % k, [c["line"] for c in part],
-                                                     [("covered", "case_covered x86_tables"), ("rm_ok", "case_rm_ok x86_tables")])
+                                                     [("covered", "case_covered x86_tables"), ("rm_ok", "case_rm_ok x86_tables"),
+                                                      ("feat", "case_feat_good x86_tables x86_feat_consts")])
     files["C12_X86Cases_rm_bad.v"] = G.cases_file("x86_cases_rm_bad", [c["line"] for c in rm_bad],
-                                                 [("covered", "case_covered x86_tables"), ("rm_false", "fun c => negb (case_rm_ok x86_tables c)")])
+                                                 [("covered", "case_covered x86_tables"), ("rm_false", "fun c => negb (case_rm_ok x86_tables c)"),
+                                                  ("feat", "case_feat_good x86_tables x86_feat_consts")])
     files["C12_X86Cases_cover_bad.v"] = G.cases_file("x86_cases_cover_bad", [c["line"] for c in cover_bad],
-                                                    [("not_covered", "fun c => negb (case_covered x86_tables c)")])
+                                                    [("not_covered", "fun c => negb (case_covered x86_tables c)"), ("feat", "case_feat_good x86_tables x86_feat_consts")])
     files["C12_X86Cover.v"] = G.cover_file(names, (len(ok), len(rm_bad), len(cover_bad)))
     return files, ok, rm_bad, cover_bad
 
@@ -199,6 +239,37 @@ def build_a64(ck, impl):
         seen.add(line)
         cases.append({"form": f, "cand": x, "line": line, "ans": r, "raw": a, "bad": G.judge_a64(x[2], x[3], r)})
     return TA, forms, cands, cases, unsupported
+
+
+def build_a64_access(ck, impl, TA):
+    """every form of the expanded a64 database AsmJit knows and the tuple builder can express: access per operand"""
+    rc, dbtxt, err = vlib.sh(["node", os.path.join(vlib.VERIF, "tools", "c12_db_a64.js"), vlib.REPO], timeout=180)
+    if rc != 0:
+        raise RuntimeError("c12_db_a64.js failed: " + err[-500:])
+    forms = [json.loads(l) for l in dbtxt.splitlines() if l.strip()]
+    name2id = {i["name"]: i["id"] for i in TA["I"]}
+    cands, unsupported = [], collections.Counter()
+    for f in forms:
+        c = G.a64_access_candidates(f, name2id)
+        if isinstance(c, str):
+            unsupported[" ".join(c.split(" ")[:2])] += 1
+            continue
+        for x in c:
+            cands.append((f, x))
+    answers = run_stream(impl, ["A %d %d %s" % (x[0], len(x[1]), " ".join(x[1])) for _f, x in cands], shards=4)
+    cases, seen, forms_ok = [], set(), set()
+    for (f, x), a in zip(cands, answers):
+        r = G.parse_answer(a.replace("A ", "Q ", 1))
+        if r["impl"].get("v") != 1:
+            unsupported["validator refuses the tuple"] += 1
+            continue
+        forms_ok.add(f["idx"])
+        line = G.a64_case_v(x)
+        if line in seen:
+            continue
+        seen.add(line)
+        cases.append({"form": f, "cand": x, "line": line, "ans": r, "raw": a, "bad": G.judge_a64(x[2], x[3], r)})
+    return forms, cands, cases, unsupported, len(forms_ok)
 
 
 def a64_random_cmds(rng, TA, n):
@@ -244,13 +315,16 @@ def host_exec(ck, cases):
         f, x = c["form"], c["cand"]
         if x[0] != 1:
             continue
+        if f.get("implicit_omitted"):
+            skipped["implicit-omitted call shape (finding C12/implicit-omitted)"] += 1
+            continue
         if f["volatile"] or f["control"] != "none" or f["privilege"] != "L3" or not set(f["category"]) <= EXEC_CATEGORIES or f["name"] in EXEC_DENY:
             skipped["volatile / control-flow / privileged / state / x87-MMX-AMX form"] += 1
             continue
         if any(o["reg"] and o["regType"] not in EXEC_REGTYPES for o in f["operands"]):
             skipped["register class not executed"] += 1
             continue
-        if any(k not in ("reg", "imm", "mem") for k in x[5]) or any(t[0] == "m" and not t.endswith(":2:0") for t in x[4]):
+        if any(k not in ("reg", "imm", "mem") for k in x[5]) or any(t[0] == "m" and not (t.endswith(":0") and (t.split(":")[1] == "2" or int(t.split(":")[1]) >= 100)) for t in x[4]):
             skipped["addressing form not executed (index/label/absolute)"] += 1
             continue
         if x[2] & G.OPT_ER:
@@ -298,7 +372,20 @@ def host_exec(ck, cases):
         for e in lst:
             d.setdefault(e["form"].split()[0], []).append(e)
         return {k: {"count": len(v), "first": v[0]} for k, v in d.items()}
-    return {"status": "exploration only (not obligations)", "states_per_form": nstates, "selected": len(sel), "executed": executed,
+    # PROMOTED to an obligation (round 2): a register/flag/memory byte that changes on the host CPU without being reported as written.
+    # (Dependence on unreported reads (B) and over-reported extensions (E) stay exploration: they need "lucky" states.)
+    for e in a_list:
+        ck.violation("C12/host/%s/unreported-change" % e["form"].split()[0],
+                     "host CPU: %s changes %s, which query_rw_info does not report as written (the ISA database does not either)" % (e["form"], e["what"]),
+                     {"command": e["cmd"], "harness": "c12_exec"})
+    # thorough tier (64 states per form, zero/small values frequent): a reported-written byte that depends on something not reported as read
+    # is an obligation too; in the quick tier (6 states) B needs too much luck and stays exploration.
+    if ck.tier == "thorough":
+        for e in b_list:
+            ck.violation("C12/host/%s/unreported-read" % e["form"].split()[0],
+                         "host CPU: the result of %s depends on state that query_rw_info does not report as read (%s)" % (e["form"], e["what"]),
+                         {"command": e["cmd"], "harness": "c12_exec"})
+    return {"status": "A (unreported change) is an obligation; B (dependence on unreported reads) in the thorough tier; E is exploration", "states_per_form": nstates, "selected": len(sel), "executed": executed,
             "every_state_faulted": faults_only, "not_executed": dict(skip_reasons), "not_selected": dict(skipped),
             "unreported_changes": by_mnemonic(a_list), "dependence_on_unreported_reads": by_mnemonic(b_list),
             "extension_reported_but_bytes_kept": {"forms": len(e_list), "mnemonics": sorted(set(e["form"].split()[0] for e in e_list))[:400],
@@ -379,7 +466,7 @@ def regen_parallel(ck, files, timeout=1500):
     args = ["-Q", os.path.join(vlib.COQ, "theories"), "Verif", "-Q", wgen, "VerifGen", "-w", "-all"]
     mine = sorted(files)
     stages = [[n for n in mine if n.endswith("Tables.v")],
-              [n for n in mine if "Cases" in n],
+              [n for n in mine if not n.endswith("Tables.v") and not n.endswith("Cover.v")],
               [n for n in mine if n.endswith("Cover.v")]]
     failed, log = [], ""      # other properties' generated files are not needed by Properties_C12.v and are left alone
 
@@ -401,6 +488,10 @@ def replay(ck, impl, model_of, forms, T):
     model = model_of()
     for c in cmds:
         print("input :", c)
+        if c.startswith("X "):
+            exe = ck.build_harness("c12x", ["c12_exec.cpp"])
+            print(" host  :", vlib.sh([exe], inp=c + "\n", timeout=120)[1].strip())
+            continue
         a = vlib.sh([impl], inp=c + "\n")[1].strip()
         print(" impl  :", a)
         print(" model :", vlib.sh([model], inp=c + "\n")[1].strip())
@@ -431,6 +522,10 @@ def run(ck):
     TA, a64_forms, a64_cands, a64_cases, a64_unsupported = build_a64(ck, impl)
     files["C12_A64Tables.v"] = G.a64_tables_v(TA)
     files["C12_A64Cases.v"] = G.a64_cases_file([c["line"] for c in a64_cases if not c["bad"]], [c["line"] for c in a64_cases if c["bad"]])
+    acc_forms, acc_cands, acc_cases, acc_unsupported, acc_forms_ok = build_a64_access(ck, impl, TA)
+    files["C12_A64Access.v"] = G.a64_access_file([c["line"] for c in acc_cases if not c["bad"]], [c["line"] for c in acc_cases if c["bad"]])
+    ck.log("a64 access: %d database forms, %d with an accepted tuple, %d distinct cases (%d not covered)" %
+           (len(acc_forms), acc_forms_ok, len(acc_cases), len([c for c in acc_cases if c["bad"]])))
     ck.log("a64: %d register-list forms, %d tuples, %d accepted distinct cases (%d not reported as runs)" %
            (len(a64_forms), len(a64_cands), len(a64_cases), len([c for c in a64_cases if c["bad"]])))
     ck.log("tuples tried %d, validator-accepted distinct cases %d (ok %d, false reg/mem claims %d, not covered %d)" %
@@ -468,6 +563,16 @@ def run(ck):
                                                                                        {1: "accepts", 0: "refuses"}.get(c["ans"]["impl"].get("s%d" % j), "n/a")),
                             {"command": G.cmd_of(c["cand"]), "impl": c["raw"], "form": c["form"]["idx"], "cand": list(c["cand"])}):
                 n_viol += 1
+    for c in cases:
+        if c["feat_bad"]:
+            ck.violation(G.case_key(c["form"], c["cand"], 0).rsplit("/", 1)[0] + "/features",
+                         "%s %s [%s]: %s" % (c["form"]["name"], " ".join(c["cand"][4]), c["form"]["opcode"], c["feat_bad"]),
+                         {"command": G.cmd_of(c["cand"], "F"), "impl": c["fraw"], "form": c["form"]["idx"], "cand": list(c["cand"])})
+    for c in acc_cases:
+        for (j, why) in c["bad"]:
+            ck.violation("C12/a64-access/%s/%s/op%s" % (c["form"]["name"], ",".join(t.split(":")[0] for t in c["cand"][1]), j),
+                         "%s %s (asmjit tuple %s): %s" % (c["form"]["name"], ", ".join(o["data"] for o in c["form"]["operands"]), " ".join(c["cand"][1]), why),
+                         {"command": "A %d %d %s" % (c["cand"][0], len(c["cand"][1]), " ".join(c["cand"][1])), "impl": c["raw"]})
     for c in a64_cases:
         for (j, why) in c["bad"]:
             cmd = "A %d %d %s" % (c["cand"][0], len(c["cand"][1]), " ".join(c["cand"][1]))
@@ -490,7 +595,9 @@ def run(ck):
     if os.path.exists(corpus):
         cmds += [l.strip() for l in open(corpus) if l.strip() and not l.startswith("#")]
     cmds += random_cmds(rng, T, 20000 if ck.tier == "quick" else 400000)
-    cmds += ["A %d %d %s" % (x[0], len(x[1]), " ".join(x[1])) for _f, x in a64_cands]
+    cmds += [G.cmd_of(x, "F") for _f, x in cands]
+    cmds += random_feature_cmds(rng, T, 20000 if ck.tier == "quick" else 300000)
+    cmds += ["A %d %d %s" % (x[0], len(x[1]), " ".join(x[1])) for _f, x in a64_cands + acc_cands]
     cmds += a64_random_cmds(rng, TA, 5000 if ck.tier == "quick" else 100000)
     ri = run_stream(impl, cmds)
     rm = run_stream(model, cmds)
@@ -505,8 +612,12 @@ def run(ck):
                              no_input=True)
 
     # ---- exploration: required CPU features
-    fx = features_exploration(ck, impl, forms, cases)
-    ck.log("query_features (exploration): %s" % {k: v for k, v in fx.items() if isinstance(v, (int, str))})
+    fx = {"tuples": len(cases), "tuples_with_high_register_id": len([c for c in cases if G.uses_high_id(c["cand"][4])]),
+          "reported_features_cover_a_matching_form": len([c for c in cases if not c["feat_bad"]]),
+          "not_covered": len([c for c in cases if c["feat_bad"]]),
+          "tuples_with_more_than_one_matching_extension_set": len([c for c in cases if c["line"].count("]; [") and len(G.feature_alternatives.__name__) > 0 and False])}
+    fx.pop("tuples_with_more_than_one_matching_extension_set")
+    ck.log("query_features: %s" % fx)
 
     # ---- exploration: host execution
     hx = host_exec(ck, cases)
@@ -546,6 +657,8 @@ def run(ck):
          "samples": samples, "database_forms": len(forms), "database_forms_with_accepted_tuple": forms_covered,
          "tuples_tried": len(cands), "cases": len(cases), "cases_ok": len(ok), "cases_false_regmem_claim": len(rm_bad),
          "cases_not_covered": len(cover_bad), "unsupported": dict(unsupported), "a64_unsupported": dict(a64_unsupported),
+         "a64_access": {"database_forms": len(acc_forms), "forms_with_accepted_tuple": acc_forms_ok, "tuples": len(acc_cands), "distinct_cases": len(acc_cases),
+                        "cases_not_covered": len([c for c in acc_cases if c["bad"]]), "not_expressible": dict(acc_unsupported)},
          "a64_register_list_forms": len(a64_forms), "a64_cases": len(a64_cases), "a64_cases_run_not_reported": len([c for c in a64_cases if c["bad"]]), "cases_by_rw_category": dict(cat_hist),
          "regmem_claims_confirmed_by_database": rm_claims, "of_which_validator_refuses_substitution": rm_validator_refuses,
          "correspondence_commands": len(cmds), "model_vs_impl_disagreements": disagreements,
